@@ -32,6 +32,8 @@ NONDET_MARKERS = ("now", "Instant", "SystemTime", "rand", "Atomic", "elapsed", "
 
 # enum-valued expression -> ((discriminant, variant name), ...), filled while values are reconstructed
 VARIANTS = {}
+# two-variant enums: second variant name -> first variant name (`x is Second` is represented as !(x is First))
+DUAL_OF = {"Some": "None", "Err": "Ok", "Pending": "Ready"}
 
 
 def is_int_ty(ty):
@@ -418,7 +420,12 @@ class FnA:
         if k == "discr":
             e = self.val_place(rv["p"], point, depth)
             if rv.get("variants"):
-                VARIANTS[e] = tuple((int(v), n) for v, n in rv["variants"])
+                vs = tuple((int(v), n) for v, n in rv["variants"])
+                VARIANTS[e] = vs
+                if len(vs) == 2:
+                    first, second = sorted(vs)[0][1], sorted(vs)[1][1]
+                    if first not in DUAL_OF:
+                        DUAL_OF.setdefault(second, first)
             return ("discr", e)
         if k == "len":
             return ("len", self.val_place(rv["p"], point, depth))
